@@ -1,4 +1,4 @@
-from .common import pyvc_units
+from .common import pyvc_units, frame_unit, CONV_FILES, GATE_FILES
 
 LEVEL = "other"
 MODULES = ["vf.contracts.c_qiskit"]
@@ -13,4 +13,5 @@ def units(tier):
     for k in range(NSHARDS):
         u.append(dict(kind="func", mechanism="bounded runtime contract (C)", name=f"bounded:convert[{k}/{NSHARDS}]", module="vf.tasks.t_qiskit", func="unit",
                       args=dict(shard=k, nshards=NSHARDS)))
+    u.append(frame_unit("converter", CONV_FILES + GATE_FILES))
     return u
